@@ -201,7 +201,8 @@ func (_this *cteListener) ExitValueInt(ctx *parser.ValueIntContext) {
 		isNegative = true
 	}
 
-	if v, err := strconv.ParseInt(str, 0, 64); err == nil {
+	base := integerBase(str)
+	if v, err := strconv.ParseInt(str, base, 64); err == nil {
 		if v == 0 && isNegative {
 			_this.eventReceiver.OnNegativeInt(0)
 		} else {
@@ -211,7 +212,7 @@ func (_this *cteListener) ExitValueInt(ctx *parser.ValueIntContext) {
 	}
 
 	bigInt := &big.Int{}
-	if _, success := bigInt.SetString(str, 0); success {
+	if _, success := bigInt.SetString(str, base); success {
 		_this.eventReceiver.OnBigInt(bigInt)
 		return
 	}
@@ -1095,8 +1096,24 @@ func (_this *cteListener) ExitCommentBlock(ctx *parser.CommentBlockContext) {
 
 // ---------------------------------------------------------------------------
 
+// integerBase returns the base to hand to strconv for integer text: 0 (prefix
+// driven) if the text has a base prefix, otherwise 10. Go's base 0 alone would
+// read the leading zeros that CTE allows in decimal integers as an octal prefix.
+func integerBase(str string) int {
+	if len(str) > 0 && str[0] == '-' {
+		str = str[1:]
+	}
+	if len(str) > 1 && str[0] == '0' {
+		switch str[1] {
+		case 'b', 'B', 'o', 'O', 'x', 'X':
+			return 0
+		}
+	}
+	return 10
+}
+
 func parseSmallUint(str string) uint64 {
-	if v, err := strconv.ParseUint(str, 0, 64); err == nil {
+	if v, err := strconv.ParseUint(str, 10, 64); err == nil {
 		return v
 	} else {
 		panic(err)
@@ -1126,6 +1143,10 @@ func appendUID(str string, dst []byte) []byte {
 }
 
 func parseUintElement(str string, base int, bitSize int, result []byte) []byte {
+	str = strings.ReplaceAll(str, "_", "")
+	if base == 0 {
+		base = integerBase(str)
+	}
 	element, err := strconv.ParseUint(str, base, bitSize)
 	if err != nil {
 		panic(fmt.Errorf("error parsing uint element: %v", err))
@@ -1145,6 +1166,10 @@ func parseUintElement(str string, base int, bitSize int, result []byte) []byte {
 }
 
 func parseIntElement(str string, base int, bitSize int, result []byte) []byte {
+	str = strings.ReplaceAll(str, "_", "")
+	if base == 0 {
+		base = integerBase(str)
+	}
 	element, err := strconv.ParseInt(str, base, bitSize)
 	if err != nil {
 		panic(fmt.Errorf("error parsing int element: %v", err))
